@@ -487,4 +487,314 @@ theorem trim_append_ws (s : Str) {c : Char} (h : isWS c = true) : trim (s ++ [c]
   · rw [h2]
     simp [trimStart, h]
 
+/-! ### E. classification of the lines `serialize_key` writes -/
+
+theorem filter_tab_self {s : Str} (h : ∀ c ∈ s, c ≠ '\t') : s.filter (· != '\t') = s := by
+  rw [List.filter_eq_self]
+  intro c hc
+  simpa using h c hc
+
+theorem classify_key : classify "[Key]".toList = .key := by decide
+
+theorem classify_nil : classify [] = .skip := by decide
+
+theorem classify_name {n : Str} (hne : n ≠ []) (ht : ∀ c ∈ n, c ≠ '\t') (htr : Trimmed n) :
+    classify ("Name = ".toList ++ n) = .name n := by
+  have hl : "Name = ".toList = ['N','a','m','e',' ','=',' '] := by decide
+  have hf : ("Name = ".toList ++ n).filter (· != '\t') = "Name = ".toList ++ n := by
+    rw [List.filter_append, filter_tab_self ht]; rfl
+  have htm : trim ("Name = ".toList ++ n) = "Name = ".toList ++ n :=
+    trim_of_trimmed (trimmed_append (by decide) (by decide) htr.2 hne)
+  unfold classify
+  simp only [hf, htm]
+  rw [hl]
+  simp [startsWith, List.isPrefixOf, splitOnceEq]
+  rw [trim_ws_cons n (by decide), trim_of_trimmed htr]
+
+theorem classify_pk {n : Str} (hne : n ≠ []) (ht : ∀ c ∈ n, c ≠ '\t') (htr : Trimmed n) :
+    classify ("PublicKey = ".toList ++ n) = .pk n := by
+  have hl : "PublicKey = ".toList = ['P','u','b','l','i','c','K','e','y',' ','=',' '] := by decide
+  have hf : ("PublicKey = ".toList ++ n).filter (· != '\t') = "PublicKey = ".toList ++ n := by
+    rw [List.filter_append, filter_tab_self ht]; rfl
+  have htm : trim ("PublicKey = ".toList ++ n) = "PublicKey = ".toList ++ n :=
+    trim_of_trimmed (trimmed_append (by decide) (by decide) htr.2 hne)
+  unfold classify
+  simp only [hf, htm]
+  rw [hl]
+  simp [startsWith, List.isPrefixOf, splitOnceEq]
+  rw [trim_ws_cons n (by decide), trim_of_trimmed htr]
+
+theorem classify_sk {n : Str} (hne : n ≠ []) (ht : ∀ c ∈ n, c ≠ '\t') (htr : Trimmed n) :
+    classify ("PrivateKey = ".toList ++ n) = .sk n := by
+  have hl : "PrivateKey = ".toList = ['P','r','i','v','a','t','e','K','e','y',' ','=',' '] := by decide
+  have hf : ("PrivateKey = ".toList ++ n).filter (· != '\t') = "PrivateKey = ".toList ++ n := by
+    rw [List.filter_append, filter_tab_self ht]; rfl
+  have htm : trim ("PrivateKey = ".toList ++ n) = "PrivateKey = ".toList ++ n :=
+    trim_of_trimmed (trimmed_append (by decide) (by decide) htr.2 hne)
+  unfold classify
+  simp only [hf, htm]
+  rw [hl]
+  simp [startsWith, List.isPrefixOf, splitOnceEq]
+  rw [trim_ws_cons n (by decide), trim_of_trimmed htr]
+
+/-! ### F. `lines` -/
+
+/-- the line `linesGo` emits at a '\n' from the reversed accumulator: one trailing '\r' is dropped -/
+def endLine (cur : Str) : Str :=
+  match cur with
+  | '\r' :: t => t.reverse
+  | t => t.reverse
+
+theorem linesGo_cons (cur : Str) (c : Char) (rest : Str) :
+    linesGo cur (c :: rest) = if c = '\n' then endLine cur :: linesGo [] rest else linesGo (c :: cur) rest := by
+  simp only [linesGo, endLine]
+  split
+  · congr 1
+  · rfl
+
+theorem linesGo_line {a : Str} (cur b : Str) (h : ∀ c ∈ a, c ≠ '\n') :
+    linesGo cur (a ++ '\n' :: b) = endLine (a.reverse ++ cur) :: linesGo [] b := by
+  induction a generalizing cur with
+  | nil => simp [linesGo_cons]
+  | cons c a ih =>
+    rw [List.cons_append, linesGo_cons, if_neg (h c (List.mem_cons_self ..)), ih _ fun c hc => h c (List.mem_cons_of_mem _ hc)]
+    simp
+
+theorem endLine_of_trimmed {pre v : Str} (hpre : pre.reverse.head? = some ' ') (hv : trimStart v.reverse = v.reverse) :
+    endLine (pre ++ v).reverse = pre ++ v := by
+  have : ∀ x : Str, (∀ t, x ≠ '\r' :: t) → endLine x = x.reverse := by
+    intro x hx
+    unfold endLine
+    split
+    · exact absurd rfl (hx _)
+    · rfl
+  rw [this, List.reverse_reverse]
+  intro t ht
+  rw [List.reverse_append] at ht
+  cases hr : v.reverse with
+  | nil =>
+    rw [hr, List.nil_append] at ht
+    rw [ht] at hpre
+    simp only [List.head?_cons, Option.some.injEq] at hpre
+    exact absurd hpre (by decide)
+  | cons c r =>
+    rw [hr] at ht hv
+    have := trimStart_head hv
+    simp only [List.cons_append, List.cons.injEq] at ht
+    rw [ht.1] at this
+    exact absurd this (by decide)
+
+/-- the four lines of a serialized section -/
+def serLines (n p s : Str) : List Str :=
+  ["[Key]".toList, "Name = ".toList ++ n, "PublicKey = ".toList ++ p, "PrivateKey = ".toList ++ s]
+
+theorem lines_serializeKey {n p s : Str} (hn : ∀ c ∈ n, c ≠ '\n') (hp : ∀ c ∈ p, c ≠ '\n') (hs : ∀ c ∈ s, c ≠ '\n')
+    (tn : Trimmed n) (tp : Trimmed p) (ts : Trimmed s) :
+    lines (serializeKey n p s) = serLines n p s := by
+  have e : serializeKey n p s = "[Key]".toList ++ '\n' :: (("Name = ".toList ++ n) ++ '\n' ::
+      (("PublicKey = ".toList ++ p) ++ '\n' :: (("PrivateKey = ".toList ++ s) ++ '\n' :: []))) := by
+    have h1 : "[Key]\nName = ".toList = "[Key]".toList ++ '\n' :: "Name = ".toList := by decide
+    have h2 : "\nPublicKey = ".toList = '\n' :: "PublicKey = ".toList := by decide
+    have h3 : "\nPrivateKey = ".toList = '\n' :: "PrivateKey = ".toList := by decide
+    have h4 : "\n".toList = ['\n'] := by decide
+    unfold serializeKey
+    rw [h1, h2, h3, h4]
+    simp only [List.append_assoc, List.cons_append]
+  have nl : ∀ (pre v : Str), (∀ c ∈ pre, c ≠ '\n') → (∀ c ∈ v, c ≠ '\n') → ∀ c ∈ pre ++ v, c ≠ '\n' := by
+    intro pre v h1 h2 c hc
+    rcases List.mem_append.mp hc with h | h
+    · exact h1 c h
+    · exact h2 c h
+  unfold lines
+  rw [e, linesGo_line _ _ (by decide), linesGo_line _ _ (nl _ _ (by decide) hn),
+    linesGo_line _ _ (nl _ _ (by decide) hp), linesGo_line _ _ (nl _ _ (by decide) hs)]
+  simp only [List.append_nil]
+  rw [endLine_of_trimmed (by decide) tn.2, endLine_of_trimmed (by decide) tp.2,
+    endLine_of_trimmed (by decide) ts.2]
+  rfl
+
+theorem linesGo_nil (cur : Str) : linesGo cur [] = if cur.isEmpty then [] else [cur.reverse] := by
+  simp [linesGo]
+
+/-- reading `old` leaves complete lines `L` and an unfinished line `cur'`; more text continues from there -/
+theorem linesGo_split (old : Str) : ∀ cur, ∃ L cur',
+    linesGo cur old = L ++ (if cur'.isEmpty then [] else [cur'.reverse]) ∧
+    ∀ b, linesGo cur (old ++ b) = L ++ linesGo cur' b := by
+  induction old with
+  | nil => intro cur; exact ⟨[], cur, by simp [linesGo_nil], fun b => rfl⟩
+  | cons c old ih =>
+    intro cur
+    by_cases hc : c = '\n'
+    · obtain ⟨L, cur', h1, h2⟩ := ih []
+      refine ⟨endLine cur :: L, cur', ?_, ?_⟩
+      · rw [linesGo_cons, if_pos hc, h1]; rfl
+      · intro b; rw [List.cons_append, linesGo_cons, if_pos hc, h2]; rfl
+    · obtain ⟨L, cur', h1, h2⟩ := ih (c :: cur)
+      refine ⟨L, cur', ?_, ?_⟩
+      · rw [linesGo_cons, if_neg hc, h1]
+      · intro b; rw [List.cons_append, linesGo_cons, if_neg hc, h2]
+
+theorem classify_append_ws (l : Str) {c : Char} (hw : isWS c = true) (ht : c ≠ '\t') : classify (l ++ [c]) = classify l := by
+  have : trim ((l ++ [c]).filter (· != '\t')) = trim (l.filter (· != '\t')) := by
+    rw [List.filter_append]
+    have : [c].filter (· != '\t') = [c] := by rw [List.filter_eq_self]; intro d hd; simp only [List.mem_singleton] at hd; simpa [hd] using ht
+    rw [this, trim_append_ws _ hw]
+  unfold classify
+  simp only [this]
+
+theorem classify_endLine (cur : Str) : classify (endLine cur) = classify cur.reverse := by
+  unfold endLine
+  split
+  · rw [List.reverse_cons, classify_append_ws _ (by decide) (by decide)]
+  · rfl
+
+/-- `old ++ x ++ new` reads as lines equivalent (for the parser) to those of `old`, followed by the lines of `new` -/
+def Junction (old x : Str) : Prop :=
+  ∀ new, ∃ ls', lines (old ++ x ++ new) = ls' ++ lines new ∧ ∀ st, parseLines st ls' = parseLines st (lines old)
+
+/-- Appending "\n" and more text to ANY text: the lines of the old text are kept up to parser-equivalence
+    (an unterminated last line is terminated, losing one trailing '\r' that `trim` would remove anyway; a
+    terminated last line is followed by one empty line). -/
+theorem junction_nl (old : Str) : Junction old ['\n'] := by
+  intro new
+  obtain ⟨L, cur', h1, h2⟩ := linesGo_split old []
+  refine ⟨L ++ [endLine cur'], ?_, ?_⟩
+  · unfold lines
+    rw [List.append_assoc, h2, List.singleton_append, linesGo_cons, if_pos rfl, List.append_assoc]
+    rfl
+  · intro st
+    unfold lines
+    rw [h1, parseLines_append, parseLines_append]
+    congr 1
+    funext st'
+    rw [parseLines_eq, parseLines_eq]
+    by_cases he : cur' = []
+    · subst he
+      simp [endLine, classify_nil, parseToks, stepTok]
+    · have : cur'.isEmpty = false := by cases cur' <;> simp_all
+      simp only [this, Bool.false_eq_true, if_false, List.map_cons, List.map_nil, classify_endLine]
+
+theorem linesGo_append_nl (a b : Str) : ∀ cur, linesGo cur (a ++ '\n' :: b) = linesGo cur (a ++ ['\n']) ++ linesGo [] b := by
+  induction a with
+  | nil => intro cur; simp [linesGo_cons, linesGo_nil]
+  | cons c a ih =>
+    intro cur
+    rw [List.cons_append, List.cons_append, linesGo_cons, linesGo_cons]
+    split
+    · rw [ih]; rfl
+    · rw [ih]
+
+theorem junction_after_nl (a : Str) : Junction (a ++ ['\n']) [] := by
+  intro new
+  refine ⟨lines (a ++ ['\n']), ?_, fun _ => rfl⟩
+  unfold lines
+  rw [List.append_nil, List.append_assoc, List.singleton_append, linesGo_append_nl]
+
+theorem junction_nil : Junction [] [] := fun _ => ⟨[], rfl, fun _ => rfl⟩
+
+/-! ### G. a serialized section continues any parse -/
+
+/-- what `key generate` writes: a name as accepted after `read_line().trim()` and `valid_key_name`
+    (non-empty, at most 128 bytes, no TAB, no surrounding white space, no line feed), an encoded public key
+    and an encoded (locked) private key -/
+structure ValidEntry (n p s : Str) : Prop where
+  name : validKeyName n = true
+  trimmed : trim n = n
+  noNl : ∀ c ∈ n, c ≠ '\n'
+  pk : encodedPkOk p = true
+  sk : encodedSkOk s = true
+
+theorem ValidEntry.name_ne {n p s : Str} (h : ValidEntry n p s) : n ≠ [] := by
+  have := h.name
+  intro hn
+  subst hn
+  exact absurd this (by decide)
+
+theorem ValidEntry.name_noTab {n p s : Str} (h : ValidEntry n p s) : ∀ c ∈ n, c ≠ '\t' := by
+  have := h.name
+  simp [validKeyName] at this
+  intro c hc hct
+  exact this.2 (hct ▸ hc)
+
+theorem ValidEntry.name_parsed {n p s : Str} (h : ValidEntry n p s) : validParsedName n = true := by
+  have := h.name
+  simp only [validKeyName, Bool.and_eq_true] at this
+  simp only [validParsedName, Bool.and_eq_true]
+  exact this.1
+
+theorem pk_ne_nil {p : Str} (h : encodedPkOk p = true) : p ≠ [] := by
+  intro hp; subst hp; exact absurd h (by decide)
+
+theorem sk_ne_nil {s : Str} (h : encodedSkOk s = true) : s ≠ [] := by
+  intro hs; subst hs; exact absurd h (by decide)
+
+theorem b64Str_facts {s : Str} (h : B64Str s) :
+    Trimmed s ∧ (∀ c ∈ s, c ≠ '\t') ∧ (∀ c ∈ s, c ≠ '\n') :=
+  ⟨trimmed_of_not_ws fun c hc => (b64Nat_not_ws (h c hc)).1,
+   fun c hc => (b64Nat_not_ws (h c hc)).2.1, fun c hc => (b64Nat_not_ws (h c hc)).2.2.1⟩
+
+/-- the tokens of the four lines `serialize_key` writes -/
+theorem serLines_toks {n p s : Str} (h : ValidEntry n p s) :
+    (lines (serializeKey n p s)).map classify = [.key, .name n, .pk p, .sk s] := by
+  have fp := b64Str_facts (b64Str_of_pk h.pk)
+  have fs := b64Str_facts (b64Str_of_sk h.sk)
+  have tn := trimmed_of_trim h.trimmed
+  rw [lines_serializeKey h.noNl fp.2.2 fs.2.2 tn fp.1 fs.1]
+  simp only [serLines, List.map_cons, List.map_nil, classify_key, classify_name h.name_ne h.name_noTab tn,
+    classify_pk (pk_ne_nil h.pk) fp.2.1 fp.1, classify_sk (sk_ne_nil h.sk) fs.2.1 fs.1]
+
+/-- the state after `old` closes to the key list `ks`: either no section was seen yet (and `ks = []`), or the
+    end-of-file `addKey` succeeds and yields `ks` -/
+def ClosesTo (st : PSt) (ks : List Key) : Prop :=
+  (st.found = false ∧ ks = []) ∨ (st.found = true ∧ ∃ st', addKey st = some st' ∧ st'.keys = ks)
+
+/-- from a state that closes to `ks`, the four tokens of a fresh valid section lead to a state that closes to
+    `ks ++ [entry]`: the `[Key]` token performs exactly the `addKey` that end-of-file would have performed -/
+theorem section_step {st : PSt} {ks : List Key} {n p s : Str} (hi : Inv st) (hc : ClosesTo st ks)
+    (hv : ValidEntry n p s) (hf : ∀ k ∈ ks, k.name ≠ n ∧ k.pk ≠ p) :
+    ∃ st2, parseToks st [.key, .name n, .pk p, .sk s] = some st2 ∧ st2.found = true ∧
+      ∃ st3, addKey st2 = some st3 ∧ st3.keys = ks ++ [⟨n, p, some s⟩] := by
+  have key : ∀ st1 : PSt, stepTok st .key = some st1 → st1.found = true → st1.name = none → st1.pk = none →
+      st1.sk = none → st1.keys = ks → ∃ st2, parseToks st [.key, .name n, .pk p, .sk s] = some st2 ∧ st2.found = true ∧
+      ∃ st3, addKey st2 = some st3 ∧ st3.keys = ks ++ [⟨n, p, some s⟩] := by
+    intro st1 h1 hfd hn hp hs hk
+    refine ⟨{ st1 with name := some n, pk := some p, sk := some s }, ?_, hfd, ?_⟩
+    · have e1 : stepTok st1 (.name n) = some { st1 with name := some n } := by
+        simp [stepTok, hfd, hn, hv.name_parsed]
+      have e2 : stepTok { st1 with name := some n } (.pk p) = some { st1 with name := some n, pk := some p } := by
+        simp [stepTok, hfd, hp, hv.pk]
+      have e3 : stepTok { st1 with name := some n, pk := some p } (.sk s) =
+          some { st1 with name := some n, pk := some p, sk := some s } := by
+        simp [stepTok, hfd, hs, hv.sk]
+      simp only [parseToks, h1, e1, e2, e3]
+    · refine ⟨_, addKey_of (n := n) (p := p) rfl rfl ?_, ?_⟩
+      · show ∀ k ∈ st1.keys, _
+        rw [hk]; exact hf
+      · show st1.keys ++ _ = _
+        rw [hk]
+  rcases hc with ⟨hnf, rfl⟩ | ⟨hfd, st', ha, hk⟩
+  · obtain ⟨h1, h2, h3, h4⟩ := hi.notFound hnf
+    exact key { st with found := true } (by simp [stepTok, hnf]) rfl h2 h3 h4 h1
+  · obtain ⟨n', p', _, _, _, he⟩ := addKey_some ha
+    exact key st' (by simp only [stepTok, hfd, if_true]; exact ha) (by rw [he]; exact hfd) (by rw [he]) (by rw [he])
+      (by rw [he]) hk
+
+/-- **Appending a section.** If `old` parses (line-wise) to a state closing to `ks` and `old ++ x` joins
+    cleanly, then `old ++ x ++ serializeKey n p s` parses to `ks ++ [entry]`. -/
+theorem parse_append_section {old x : Str} {st : PSt} {ks : List Key} {n p s : Str}
+    (hj : Junction old x) (hold : parseLines {} (lines old) = some st) (hc : ClosesTo st ks)
+    (hv : ValidEntry n p s) (hf : ∀ k ∈ ks, k.name ≠ n ∧ k.pk ≠ p) :
+    parse (old ++ x ++ serializeKey n p s) = some (ks ++ [⟨n, p, some s⟩]) := by
+  obtain ⟨ls', hl, hp⟩ := hj (serializeKey n p s)
+  obtain ⟨st2, h2, hfd, st3, h3, hk⟩ := section_step (parseLines_inv inv_init hold) hc hv hf
+  have : parseLines {} (lines (old ++ x ++ serializeKey n p s)) = some st2 := by
+    rw [hl, parseLines_append, hp, hold, Option.bind_some, parseLines_eq, serLines_toks hv, h2]
+  rw [← hk]
+  exact parse_of this hfd h3
+
+theorem closesTo_of_parse {t : Str} {ks : List Key} (h : parse t = some ks) :
+    ∃ st, parseLines {} (lines t) = some st ∧ ClosesTo st ks := by
+  obtain ⟨st, st', h1, h2, h3, h4⟩ := parse_some h
+  exact ⟨st, h1, Or.inr ⟨h2, st', h3, h4⟩⟩
+
 end Kestrel.KR
